@@ -40,8 +40,9 @@ MANIFEST_TEXT["C01"] = {
     "text": ("Held on the executions observed: an independent topology checker (directed-edge multiset, merge-vector union-find, "
              "index/finite/referenced checks, V/E/F/genus recount) runs on the export of EVERY value produced by every step of "
              "seeded programs over the whole public API, in an ASan+UBSan build, including coincident, near-degenerate and "
-             "eps-invalid operands and the Boolean->Smooth->RefineTo* chains. Sampling, not proof."),
-    "note": "Trusts the harness's topology checker and g++'s sanitizers; programs are sampled (bounded length and mesh size); PAR-only paths are covered by the shim stage only where listed in evidence.",
+             "eps-invalid operands, the Boolean->Smooth->RefineTo* chains, and imports of touching (even-manifold) inputs: wedges "
+             "sharing an edge / cones sharing an apex with high-valence fans in shuffled triangle order. Sampling, not proof."),
+    "note": "Trusts the harness's topology checker and g++'s sanitizers; programs are sampled (bounded length and mesh size). All stages use the serial backend: the PAR-only code paths (partitioned CreateHalfedges, parallel CleanupTopology) are exercised by C04's programs under the shim and real TBB, where a topology change would show as a hash difference against the serial build, not by this check.",
     "technique": "runtime monitoring: program-fuzzing with an invariant oracle on public output under ASan+UBSan",
     "design_ref": "DESIGN.md 4 C01",
 }
